@@ -198,6 +198,27 @@ def handleCfg (j : Json) : Option Json :=
       ("accepts", Json.bool (acceptsName core sect name)),
       ("all_load", Json.bool (allLoad mods sect)),
       ("section", mkArr (sect.map fun kv => mkArr [Json.str (l2s kv.1), Json.str (l2s kv.2)]))]
+  | "plugcmd" =>
+    -- `core`: [name], `layers`, `mods` as for plugpick, `args`: the words -> {"cmd","rest","pick","cls"}
+    let core := (jstrs j "core").map s2l
+    let layers : List (List (Str × Str)) := (jarr j "layers").map fun l =>
+      (asArr l).map fun kv => match asArr kv with
+        | [k, v] => (s2l (asStr k), s2l (asStr v))
+        | _ => ([], [])
+    let sect := addPlugins (pluginSection layers) []
+    let mods : List (Str × List Str) := (jarr j "mods").map fun m => match asArr m with
+      | [k, v] => (s2l (asStr k), (asArr v).map fun a => s2l (asStr a))
+      | _ => ([], [])
+    let args := (jstrs j "args").map s2l
+    let sc := subCommand (nameTable core sect) args
+    let pk := commandPick core sect mods args
+    some <| Json.mkObj [
+      ("cmd", Json.str (l2s sc.1)), ("rest", mkArr (sc.2.map fun x => Json.str (l2s x))),
+      ("pick", Json.str (match pk with | .cls _ => "cls" | .errorMsg => "error" | .traceback3 => "traceback3" | .escapes => "escapes")),
+      ("cls", match pk with
+              | .cls (.core n) => mkArr [Json.str "core", Json.str (l2s n)]
+              | .cls (.plugin l) => mkArr [Json.str "plugin", Json.str (l2s l)]
+              | _ => Json.null)]
   | "cfgtext" =>
     some <| match optOf (jobj j "opt") with
     | some o =>
